@@ -294,6 +294,9 @@ func run(c *core.Ctx) error {
 		runs[i] = o.Records
 		for _, r := range o.Records {
 			m := r.(map[string]any)
+			if m["ev"] == "MemMergeEquiv" {
+				c.AddExtra("equivalent_snapshots_judged", 1)
+			}
 			if m["ev"] == "Recovered" {
 				c.Eval(1)
 				if d, ok := m["docs"].([][]any); ok && len(d) > 0 {
